@@ -25,7 +25,7 @@ H1R = "#" * 32
 H2R = "=" * 24
 
 KINDS = [("-", None), ("o", None), ("o", "P1"), ("x", None), ("<", "P4"), ("~", None)]
-TAILS = ["single", "cont", "bullet", "bprop", "own-meta", "stamped"]
+TAILS = ["single", "cont", "bullet", "bprop", "own-meta", "stamped", "headline-prop"]
 HEADS = {
     # the header block of the source page: what the moved note inherits
     "plain-values": "# Source page #inh +proj\n# hk::hv\n\n",
@@ -43,6 +43,9 @@ def _note_lines(kind, prio, tail):
     pre = kind + (f" {prio}" if prio else "")
     if tail == "stamped":
         first = f"{pre} 240402 {MZ} moved body words"
+    elif tail == "headline-prop":
+        # the whole rest of the first line is the value of the property q
+        first = f"{pre} {MZ} q:: headline value words"
     elif tail == "own-meta":
         first = f"{pre} {MZ} moved body #own [[lk]] ok::ov [oi:: p q] words"
     else:
@@ -136,7 +139,17 @@ def run_case(ctx, case) -> F.Outcome:
                     if not _strip_added(g["body"], before["body"]):
                         diffs["body"] = [before["body"], g["body"]]
                     if diffs:
-                        problem = ("moved-note-compiles-to-another-note:" + "+".join(sorted(diffs)), diffs)
+                        what = "+".join(sorted(diffs))
+                        # narrow class: the note's first word after its ZID is a headline property
+                        # ('ZID q:: value ...'); the words the move inserts after the ZID push 'q::' out of
+                        # first place, where alone the compiler reads it as a property -- nothing else differs
+                        words = before["body"].split("\n")[0].split(" ")
+                        kpos = 2 if (len(words) > 2 and words[0].isdigit() and len(words[0]) == 6) else 1
+                        hk = words[kpos][:-2] if len(words) > kpos and words[kpos].endswith("::") else None
+                        if hk and set(diffs) == {"props"} and set(diffs["props"][0]) == {hk} \
+                                and len(g["body"].split("\n")[0].split(" ")) > len(words):
+                            what += ":headline-property-pushed-behind-the-inserted-words"
+                        problem = ("moved-note-compiles-to-another-note:" + what, diffs)
         out.obs = H.digest([dst, mv.value if mv.status == "ok" else mv.status])
         if problem:
             out.ok = False
